@@ -404,6 +404,13 @@ def policies(rng, fam):
             p["crash_at"] = [dict(label=rng.choice(WORKER_LABELS), nth=rng.randint(1, 3))]
         elif r < 0.7:
             p["pcrash"], p["max_crash"] = 0.01, rng.choice([1, 2])
+    # how the environment's victims die: the usual signals, a real-time signal (no name in signal.Signals), plain exit statuses
+    code = rng.choice([-11, -11, -9, -6, -37, -50, 1, 3])
+    if "crash_at" in p:
+        for c in p["crash_at"]:
+            c["code"] = code
+    if p.get("pcrash"):
+        p["crash_code"] = code
     return p
 
 
